@@ -206,6 +206,37 @@ def gen_lle_case(rng):
             'second': rng.random() < 0.5, 'top': rng.choice([None, None, 'Water', 'Octane', 'Hexane', 'Ethanol']),
             'draws': [rng.random() for _ in range(24)]}
 
+def gen_lle_pf_case(rng):
+    """two LLE calls on one object, the second answered from the object's cache (composition_cache_tolerance is the user's to
+    set) after the composition was changed from outside: the REAL binary_phase_fraction.phase_fraction is used"""
+    ids = env()['IDS2']; n = len(ids)
+    pat = rng.choice([[1, 0, 1, 0, 0, 0], [1, 0, 0, 1, 0, 0], [1, 0, 1, 0, 1, 0], [0, 1, 1, 0, 0, 0], [1, 1, 1, 0, 0, 0], [1, 0, 1, 1, 0, 0]])
+    l = [rng.choice(FLOWS) if pat[i] else 0. for i in range(n)]
+    L = [rng.choice([0.] + FLOWS) if pat[i] else 0. for i in range(n)]
+    return {'kind': 'lle', 'l': l, 'L': L, 'T': rng.choice([298.15, 320.]), 'second': True, 'realpf': True,
+            'top': rng.choice([None, None, 'Water', 'Octane']),
+            'drift': [rng.choice([1., 0.5, 2., 4., 0.25, 8., 0.125]) for _ in range(n)],
+            'draws': [rng.random() for _ in range(24)]}
+
+PFK = [0.5, 2., 1., 0.25, 4., 1.5, 0.75, 3., 1. + 2. ** -40, 1. - 2. ** -40, 8., 0.125]
+def gen_pf_case(rng):
+    n = rng.choice([1, 2, 2, 2, 2, 3, 4])
+    z = [rng.choice([0.5, 0.25, 0.75, 0.125, 1., 0., 2.]) for _ in range(n)]
+    return {'kind': 'pf', 'z': z, 'K': [rng.choice(PFK) for _ in range(n)], 'rr': rng.choice([-0.5, 0., 0.25, 0.5, 1., 1.5])}
+
+def run_pf(case):
+    env()
+    from thermosteam.equilibrium import binary_phase_fraction as b
+    p = Patches()
+    p.set(b, 'solve_phase_fraction_Rashford_Rice', lambda zs, Ks, guess, za=0, zb=0: case['rr'])
+    try:
+        try:
+            return {'phi': float(b.phase_fraction(np.array(case['z'], float), np.array(case['K'], float), 0.5))}
+        except (ValueError, FloatingPointError, ZeroDivisionError):
+            return {'phi': None}
+    finally:
+        p.undo()
+
 def gen_sle_case(rng):
     ids = env()['IDS2']
     n = len(ids)
@@ -262,16 +293,18 @@ def gen_vlle_case(rng):
 def gen_cases(rng, tier):
     if tier == 'quick':
         n_stub, n_real, n_lle, n_sle, n_vlle = 230, 28, 40, 40, 30
-        n_sleh = 40
+        n_sleh = 40; n_vleh = (40, 10); n_pf = (30, 40)
     else:
         n_stub, n_real, n_lle, n_sle, n_vlle = 3000, 300, 400, 400, 300
-        n_sleh = 400
+        n_sleh = 400; n_vleh = (400, 60); n_pf = (300, 400)
     cases = [gen_vle_case(rng) for _ in range(n_stub)]
     cases += [gen_real_case(rng) for _ in range(n_real)]
     cases += [gen_lle_case(rng) for _ in range(n_lle)]
     cases += [gen_sle_case(rng) for _ in range(n_sle)]
     cases += [gen_vlle_case(rng) for _ in range(n_vlle)]
     cases += [gen_sleh_case(rng) for _ in range(n_sleh)]
+    cases += [gen_lle_pf_case(rng) for _ in range(n_pf[0])] + [gen_pf_case(rng) for _ in range(n_pf[1])]
+    cases += [gen_vleh_case(rng, 'stub') for _ in range(n_vleh[0])] + [gen_vleh_case(rng, 'real') for _ in range(n_vleh[1])]
     return cases
 
 # ------------------------------------------------------------------ implementation side: VLE
@@ -309,20 +342,25 @@ def install_stubs(rec, case, vleobj):
     from thermosteam.equilibrium.bubble_point import BubblePoint
     from thermosteam.equilibrium.dew_point import DewPoint
     p = Patches()
-    spec = case['spec']; co = case['co']
-    baseT = spec.get('T', 350.); baseP = spec.get('P', 101325.)
+    co = case['co']
+    class _B:      # the specification of the call in progress (histories change it between calls)
+        @property
+        def T(self): return rec.case['spec'].get('T', 350.)
+        @property
+        def P(self): return rec.case['spec'].get('P', 101325.)
+    base = _B()
     TOFF = [-20., -5., -0.25, 0., 0.25, 5., 20., 10.]
     PFAC = [0.5, 0.75, 0.9, 1., 1.1, 1.25, 1.5, 2.]
     def comp(n):
         return np.array([rec.draw(COMP) for _ in range(n)], float)
     def solve_Py(self, z, T, liquid_conversion=None):
-        val = baseP * rec.draw(PFAC); y = comp(len(z)); rec.add('b', [val, fl(y)]); return val, y
+        val = base.P * rec.draw(PFAC); y = comp(len(z)); rec.add('b', [val, fl(y)]); return val, y
     def solve_Ty(self, z, P, liquid_conversion=None):
-        val = baseT + rec.draw(TOFF); y = comp(len(z)); rec.add('b', [val, fl(y)]); return val, y
+        val = base.T + rec.draw(TOFF); y = comp(len(z)); rec.add('b', [val, fl(y)]); return val, y
     def solve_Px(self, z, T, gas_conversion=None):
-        val = baseP * rec.draw(PFAC); x = comp(len(z)); rec.add('d', [val, fl(x)]); return val, x
+        val = base.P * rec.draw(PFAC); x = comp(len(z)); rec.add('d', [val, fl(x)]); return val, x
     def solve_Tx(self, z, P, gas_conversion=None):
-        val = baseT + rec.draw(TOFF); x = comp(len(z)); rec.add('d', [val, fl(x)]); return val, x
+        val = base.T + rec.draw(TOFF); x = comp(len(z)); rec.add('d', [val, fl(x)]); return val, x
     p.set(BubblePoint, 'solve_Py', solve_Py); p.set(BubblePoint, 'solve_Ty', solve_Ty)
     p.set(DewPoint, 'solve_Px', solve_Px); p.set(DewPoint, 'solve_Tx', solve_Tx)
     VFAC = [-0.5, 0., 0.3125, 0.4375, 0.8125, 1., 1.5, 0.0625]   # disjoint from VS: no exact V_bubble == V ties (decided by rounding)
@@ -428,6 +466,128 @@ def resolve_spec(case, s):
             spec[k] = float(lo + spec[k][1] * (hi - lo))
     return spec
 
+def post_info(v, sk, spec):
+    """property-package constants the call read (domain limits of the bubble / dew point objects, single-chemical Tc, Psat, Tsat)"""
+    lims = [0., 0.]
+    chem = None
+    N = getattr(v, '_N', None)
+    try:
+        bp = v._bubble_point; dp = v._dew_point
+    except AttributeError:
+        bp = dp = None
+    if bp is not None and N is not None and N >= 2:
+        if sk == 'TV': lims = [bp.Pmax, bp.Pmin]
+        elif sk == 'PV': lims = [bp.Tmin, bp.Tmax]
+        elif sk in ('TH', 'TS'): lims = [0., bp.Pmin]
+        elif sk in ('PH', 'PS'): lims = [bp.Tmin, dp.Tmax]
+    if N == 1:
+        c = v._chemical
+        chem = {'Tc': float(c.Tc)}
+        if 'T' in spec: chem['Psat'] = float(c.Psat(spec['T']))
+        if 'P' in spec: chem['Tsat'] = float(c.Tsat(spec['P'], check_validity=False))
+    return {'lims': [float(x) for x in lims], 'chem': chem, 'N': None if N is None else int(N)}
+
+def gen_vleh_case(rng, mode='stub'):
+    """a history of VLE calls on ONE stream (one persistent VLE object); between the calls the material is redistributed over
+    l and g from outside (totals unchanged, so the set of chemicals present -- the key of the object's cache -- is unchanged);
+    gas-only material ends up in the liquid, liquid-only material in the gas, the feed is re-loaded into one phase, ..."""
+    base = gen_vle_case(rng, mode) if mode == 'stub' else gen_real_case(rng)
+    n = len(IDS)
+    tot = [a + b for a, b in zip(base['l'], base['g'])]
+    def one_spec():
+        c = gen_vle_case(rng, 'stub') if mode == 'stub' else gen_real_case(rng)
+        sk = c['sk']
+        if sk[1] in 'xy': sk = 'TP'; c['spec'] = {'T': rng.choice(TS), 'P': rng.choice(PS)}
+        spec = c['spec']
+        if mode == 'stub' and sk[1] in 'HS':
+            zero = [0.] * n
+            Hl = lin_H(base['co'], [('l', tot), ('g', zero), ('s', base['s'])], 350.)
+            Hg = lin_H(base['co'], [('l', zero), ('g', tot), ('s', base['s'])], 350.)
+            spec = dict(spec); spec[sk[1]] = Hl + rng.choice(FRACS) * (Hg - Hl)
+        return sk, spec
+    ops = []
+    sk, spec = one_spec()
+    if mode == 'real' and rng.random() < 0.6:
+        sk, spec = 'TP', {'T': rng.choice([355., 360., 365., 350.]), 'P': 101325.}
+    ops.append(['vle', sk, spec])
+    for _ in range(rng.randint(1, 3)):
+        r = rng.random()
+        if r < 0.35: ops.append(['redist', [1.] * n])                       # everything re-loaded as liquid
+        elif r < 0.5: ops.append(['redist', [0.] * n])                      # ... as gas
+        else: ops.append(['redist', [rng.choice([0., 0.25, 0.5, 0.75, 1.]) for _ in range(n)]])
+        if rng.random() < 0.5: ops.append(['vle', sk, spec])                # the same call again
+        else: ops.append(['vle'] + list(one_spec()))
+    return {'kind': 'vleh', 'mode': mode, 'phases': base['phases'], 'l': base['l'], 'g': base['g'], 's': base['s'],
+            'T0': base['T0'], 'P0': base['P0'], 'co': base['co'], 'draws': base['draws'] or [rng.random() for _ in range(8)],
+            'ops': ops, 'spec': {}, 'sk': 'TP'}
+
+def run_vleh(case):
+    s = build_stream(case)
+    v = s.vle                      # one object for the whole history
+    rec = Rec(case)
+    p = install_stubs(rec, case, v) if case['mode'] == 'stub' else install_recorders(rec, v)
+    calls = []
+    try:
+        for op in case['ops']:
+            if op[0] == 'redist':
+                l = np.array(fl(s.imol['l'].to_array())); g = np.array(fl(s.imol['g'].to_array()))
+                tot = l + g
+                newl = tot * np.array(op[1]); s.imol['l'] = newl; s.imol['g'] = tot - newl
+                continue
+            sk = op[1]
+            c1 = dict(case, sk=sk, spec=op[2])
+            spec = resolve_spec(c1, s)
+            rec.case = dict(c1, spec=spec)
+            rec.tick = 0; start = len(rec.events)
+            init = snapshot(s)
+            raised = None
+            kw = {k: (np.array(val) if isinstance(val, list) else val) for k, val in spec.items()}
+            try:
+                v(**kw)
+            except Exception as ex:
+                raised = exc_name(ex)
+                if raised is None:
+                    if any(e[2] is None for e in rec.events[start:]): raised = 'oracle:' + type(ex).__name__
+                    else: raise
+            out = {'init': init, 'final': snapshot(s), 'raised': raised, 'events': rec.events[start:], 'ticks': rec.tick, 'spec': spec, 'sk': sk}
+            out.update(post_info(v, sk, spec))
+            calls.append(out)
+    finally:
+        p.undo()
+    return {'calls': calls}
+
+def coq_vleh(case, out):
+    ts = [coq_vle(dict(case, sk=o['sk'], spec=o['spec']), o) for o in out['calls']]
+    return '(' + ' && '.join(ts) + ')' if ts else 'true'
+
+def oracle_vleh(case):
+    """the history on the real code with the real solvers: after every call conservation, non-negativity, placement"""
+    s = build_stream(case)
+    for op in case['ops']:
+        if op[0] == 'redist':
+            l = np.array(fl(s.imol['l'].to_array())); g = np.array(fl(s.imol['g'].to_array())); tot = l + g
+            newl = tot * np.array(op[1]); s.imol['l'] = newl; s.imol['g'] = tot - newl
+            continue
+        sk = op[1]
+        c1 = dict(case, sk=sk, spec=op[2])
+        spec = resolve_spec(c1, s)
+        if case['mode'] == 'stub' and sk[1] in 'HS':
+            spec = resolve_spec(dict(c1, spec=dict(op[2], **{sk[1]: ['frac', 0.5]})), s)
+        if 'V' in spec and not 0. <= spec['V'] <= 1.: continue
+        init = snapshot(s)
+        try:
+            s.vle(**{k: (np.array(val) if isinstance(val, list) else val) for k, val in spec.items()})
+        except Exception:
+            continue
+        fin = snapshot(s)
+        msg = check_rows([init['l'], init['g']] + init['oth'], [fin['l'], fin['g']] + fin['oth'], IDS)
+        if msg: return f'vle({sk}) on a used stream: {msg}'
+        for c in (3, 4):
+            if abs(fin['l'][c]) > 0: return f'vle({sk}) on a used stream: gas-only chemical {IDS[c]} left in the liquid: {fin["l"][c]}'
+        for c in (5, 6):
+            if abs(fin['g'][c]) > 0: return f'vle({sk}) on a used stream: liquid/solid-only chemical {IDS[c]} in the gas: {fin["g"][c]}'
+    return None
+
 def run_vle(case):
     s = build_stream(case)
     init = snapshot(s)
@@ -451,25 +611,7 @@ def run_vle(case):
     finally:
         p.undo()
     out = {'init': init, 'final': snapshot(s), 'raised': raised, 'events': rec.events, 'ticks': rec.tick, 'spec': spec}
-    lims = [0., 0.]
-    chem = None
-    N = getattr(v, '_N', None)
-    sk = case['sk']
-    try:
-        bp = v._bubble_point; dp = v._dew_point
-    except AttributeError:
-        bp = dp = None
-    if bp is not None and N is not None and N >= 2:
-        if sk == 'TV': lims = [bp.Pmax, bp.Pmin]
-        elif sk == 'PV': lims = [bp.Tmin, bp.Tmax]
-        elif sk in ('TH', 'TS'): lims = [0., bp.Pmin]
-        elif sk in ('PH', 'PS'): lims = [bp.Tmin, dp.Tmax]
-    if N == 1:
-        c = v._chemical
-        chem = {'Tc': float(c.Tc)}
-        if 'T' in spec: chem['Psat'] = float(c.Psat(spec['T']))
-        if 'P' in spec: chem['Tsat'] = float(c.Tsat(spec['P'], check_validity=False))
-    out['lims'] = [float(x) for x in lims]; out['chem'] = chem; out['N'] = None if N is None else int(N)
+    out.update(post_info(v, case['sk'], spec))
     return out
 
 # ------------------------------------------------------------------ implementation side: LLE / SLE
@@ -496,10 +638,30 @@ def run_lle(case):
     def pf(z, K, phi):
         r = rec.draw([0., 0.25, 0.5, 0.75, 1., 1.5, -0.25, 0.999])
         calls.append(['phi', r, fl(K)]); return r
+    realpf = case.get('realpf')
+    if realpf:
+        from thermosteam.equilibrium import binary_phase_fraction as bpf
+        lle.composition_cache_tolerance = 10.; lle.temperature_cache_tolerance = 10.
+        real_pf = lm.phase_fraction; real_rr = bpf.solve_phase_fraction_Rashford_Rice
+        raw = {}
+        def rr(*a, **k):
+            raw['rr'] = float(real_rr(*a, **k)); return raw['rr']
+        def pf(z, K, phi):
+            calls.append(['phi', None, fl(K), None])
+            r = real_pf(z, K, phi)
+            calls[-1][1] = float(r); calls[-1][3] = raw.get('rr', 0.)
+            return r
+        def solver(self, mol, T, lle_chemicals, single_loop):
+            fs = distinct_factors([rec.draw([0., 0.25, 0.5, 0.75, 1.]) for m in mol])
+            r = np.array([m * f for m, f in zip(mol, fs)], float)
+            calls.append(['solve', fl(r)]); return r
+        p.set(bpf, 'solve_phase_fraction_Rashford_Rice', rr)
     p.set(lm.LLE, 'solve_lle_liquid_mol', solver); p.set(lm, 'phase_fraction', pf)
     steps = []
     try:
         for k in range(2 if case['second'] else 1):
+            if realpf and k == 1:
+                s.imol['l'] = np.array(fl(s.imol['l'].to_array())) * np.array(case['drift'])   # the composition drifts between the calls
             before = {'l': fl(s.imol['l'].to_array()), 'L': fl(s.imol['L'].to_array())}
             del calls[:]
             raised = False
@@ -507,6 +669,7 @@ def run_lle(case):
                 lle(case['T'], top_chemical=case['top'])
             except (FloatingPointError, ZeroDivisionError):
                 raised = True
+            if realpf: before = dict(before)
             steps.append({'before': before, 'after': {'l': fl(s.imol['l'].to_array()), 'L': fl(s.imol['L'].to_array())},
                           'calls': [list(c) for c in calls], 'raised': raised})
             if raised: break
@@ -634,6 +797,8 @@ def run_sleh(case, stub=True):
     return {'steps': steps, 'Tm': float(e['thermo2'].chemicals.tuple[j].Tm)}
 
 def run_impl(case):
+    if case['kind'] == 'pf': return run_pf(case)
+    if case['kind'] == 'vleh': return run_vleh(case)
     if case['kind'] == 'sleh': return run_sleh(case)
     if case['kind'] == 'vlle': return run_vlle(case)
     if case['kind'] == 'vle': return run_vle(case)
@@ -694,10 +859,15 @@ def coq_lle(case, out):
         calls = stp['calls']
         cache = any(c[0] == 'phi' for c in calls)
         K = next((c[2] for c in calls if c[0] == 'phi'), [])
-        phi = next((c[1] for c in calls if c[0] == 'phi'), 0.)
+        phi = next((c[1] for c in calls if c[0] == 'phi'), 0.) or 0.
         molL = next((c[1] for c in calls if c[0] == 'solve'), [])
         top = 'None' if case['top'] is None else f'(Some {cnat(e["IDS2"].index(case["top"]))})'
         o = f'(mklo {cbool(cache)} {qlist(K)} {q(phi)} {qlist(molL)} {top} {qlist(e["MW2"])})'
+        if case.get('realpf') and cache:
+            rr = next((c[3] for c in calls if c[0] == 'phi'), 0.) or 0.
+            terms.append(f'(lle_check_pf {clist(e["lle2"], cbool)} {q(rr)} {o} (mklst {qlist(stp["before"]["l"])} {qlist(stp["before"]["L"])}) '
+                         f'(mklst {qlist(stp["after"]["l"])} {qlist(stp["after"]["L"])}) {cbool(stp["raised"])})')
+            continue
         terms.append(f'(lle_check {clist(e["lle2"], cbool)} {o} (mklst {qlist(stp["before"]["l"])} {qlist(stp["before"]["L"])}) '
                      f'(mklst {qlist(stp["after"]["l"])} {qlist(stp["after"]["L"])}) {cbool(stp["raised"])})')
     return '(' + ' && '.join(terms) + ')'
@@ -766,6 +936,8 @@ def coq_sleh(case, out):
     return (f'(hist_eqb (hrun {clist(e["lle2"], cbool)} {cnat(case["j"])} {q(out["Tm"])} ({init}, sobj0) {clist([hop(o) for o in case["ops"]])}) {exp})')
 
 def coq_case(case, out):
+    if case['kind'] == 'pf': return f'(pf_check (phase_fraction_m {q(case["rr"])} {qlist(case["z"])} {qlist(case["K"])}) {copt(out["phi"], q)})'
+    if case['kind'] == 'vleh': return coq_vleh(case, out)
     if case['kind'] == 'sleh': return coq_sleh(case, out)
     if case['kind'] == 'vlle': return coq_vlle(case, out)
     if case['kind'] == 'vle': return coq_vle(case, out)
@@ -782,6 +954,8 @@ def coq_show(case, out):
     return 'tt'
 
 def nontrivial(case, out):
+    if case['kind'] == 'pf': return out['phi'] is not None
+    if case['kind'] == 'vleh': return sum(1 for o in out['calls'] if (o['init']['l'], o['init']['g']) != (o['final']['l'], o['final']['g'])) >= 2
     if case['kind'] == 'sleh':
         return sum(1 for op, st in zip(case['ops'], out['steps']) if op[0] in ('T', 'given') and not st['raised']) >= 2
     if case['kind'] == 'vlle':
@@ -794,6 +968,8 @@ def nontrivial(case, out):
     return out['before']['l'] != out['after']['l'] or out['before']['s'] != out['after']['s']
 
 def classify(case, out):
+    if case['kind'] == 'pf': return [f'pf:n={len(case["z"])}:' + ('error' if out['phi'] is None else 'value')]
+    if case['kind'] == 'vleh': return [f'vleh:{case["mode"]}:' + '>'.join(o['sk'] for o in out['calls'])[:40]] + [f'vleh-call:{o["sk"]}:raised={o["raised"]}' for o in out['calls']]
     if case['kind'] == 'sleh':
         return [f'sleh:{op[0]}:{"raised" if st["raised"] else "ok"}' for op, st in zip(case['ops'], out['steps'])]
     if case['kind'] == 'vlle':
@@ -828,6 +1004,20 @@ def check_rows(before, after, names, tol=1e-9):
 def oracle(case):
     """Runs the REAL code with the REAL solvers (no stubs) and evaluates the property on the stream."""
     e = env()
+    if case['kind'] == 'pf':
+        phi = run_pf(case)['phi']
+        if phi is not None and not 0. <= phi <= 1.:
+            return f'phase_fraction: returned {phi} for z={case["z"]}, K={case["K"]} (a phase fraction outside [0, 1] makes a phase flow negative)'
+        return None
+    if case['kind'] == 'lle' and case.get('realpf'):
+        # the write-back with the real phase_fraction; the optimiser is a table that stays within its bounds [0, z]
+        out = run_lle(case)
+        for k, stp in enumerate(out['steps']):
+            if stp['raised']: continue
+            msg = check_rows([stp['before']['l'], stp['before']['L']], [stp['after']['l'], stp['after']['L']], e['IDS2'])
+            if msg: return f'lle call {k + 1} ({"from the cache" if any(c[0] == "phi" for c in stp["calls"]) else "solver"}): {msg}'
+        return None
+    if case['kind'] == 'vleh': return oracle_vleh(case)
     if case['kind'] == 'sleh':
         # the history on the real code, once with the real SLE._solve_x and once with the table one
         for stub in (False, True):
